@@ -386,6 +386,10 @@ class Interp(object):
         else:
             g = z3.BoolVal(bool(goal))
         self.vcs.append((name, list(self.pc) + list(hyps_extra), g))
+        if self.frames:
+            # recorded while the repository's code is being interpreted (by a cut, a loop invariant or a callee contract): an
+            # assertion about the code's internals, not about the inputs and the result
+            self.info.setdefault("_internal", set()).add(name)
 
     def check_then_assume(self, name, goal):
         self.vc(name, goal)
